@@ -90,6 +90,22 @@ MISSED_FIRST = {  # seeds not reported by the checks as they stood when the seed
     "C20-r4A": "was reported for false reasons (C06 and C20.3 did not read the table-driven stores); loops over literal tables are now evaluated column by column (flow, points-to, C20.3/.4): the seed is reported by C20.4 - the table holds the lists as they were before the recovery of a swallowed content path",
     "C20-r4B": "was reported for a false reason (re.split not evaluated: kind '?'); the configuration route is now evaluated by value on representatives that contain what is legal in a URL: the comma split is reported",
     "C10-r2C": "new fact single.key (C02.1 / C10.3): the key of a single-file payload's leaf in the file tree is the recorded name (all definitions of the attribute used agree with what is stored as info['name'], modulo abspath)",
+    # ---- round 7 (C: an everyday maintenance change with one slip)
+    "C01-r7C": "was reported by C08 for a false reason (`filelist.sort()` inside the directory arm was not taken for a sort); the origin terms now model an in-place default sort that stands between every change to the list and the read; the seed (glob leaves out dot-names) is answered undecided: a glob walk is outside C01.2",
+    "C02-r7C": "was reported by C02 for a false reason (a padding width held in a case-split local compared as text); such locals now count as unresolved: undecided (the closed form of next_power_2 is outside the structural fact)",
+    "C03-r7C": "undecided (exit 2): the padding of the short piece moved into a helper of the hasher",
+    "C06-r7C": "reported by C06.5 (length and files both stored for a single file) and C03.4; C08 reported it as well for a false reason (bare name under `{name: tree} if single else tree`), now evaluated as an isfile guard",
+    "C07-r7C": "reported by C07.5 (the value dumped is not only the decoded metafile); C06.3 reported it as well for a false reason (a comprehension over sorted(d.items()) with a filter), now recognised as ordered",
+    "C09-r7C": "the target check was SILENT at first contact (only C08 reported, for a questionable reason): the revived Memo serves its results through `self.cache.get(path)`, and C09.3 recognised only `self.cache[path]`; caches served through get / pop / setdefault are now recognised and C09.3 reports the stale directory listing",
+    "C10-r7C": "undecided (exit 2): the padding rule moved into a module helper with a hoisted flag",
+    "C11-r7C": "undecided (exit 2): the parameter names of the URI come out of a shared formatter",
+    "C12-r7C": "undecided (exit 2): bit_length arithmetic is outside the abstract domain of C12.1",
+    "C13-r7C": "undecided (exit 2): how the per-directory maps are merged is not read (C13.5)",
+    "C14-r7C": "was reported by C13.3 and by C14.3 at the v1 matcher for false reasons (guard clauses with `length and ...`, size filter inside the candidates comprehension); both are now evaluated (non-empty world, filter of the comprehension) and the seed is reported by C14.3 at _match_v2 only: the copy is not conditional on the size",
+    "C15-r7C": "was reported by C01.6 for a false reason (two extends in exclusive arms counted as two); extends are now counted per path; the seed is answered undecided (C15.3 follows one read in __next__, the rewrite has two)",
+    "C16-r7C": "undecided (exit 2): the padding generator's emissions are not recognised in the reshaped loop",
+    "C17-r7C": "reported by C17.2 (the temporary file is never closed before the replace); C07.2 reported it as well for a false reason (isinstance guard on a value that is None when the field is not named), now evaluated",
+    "C20-r7C": "was reported by C20.3 and C08 for false reasons (stores driven by a local table were not read); local dictionary tables walked with .items() are now written out row by row, their values taken where the display is evaluated - and C20.4 reports the slip itself: the list is copied BEFORE the recovery arm removes a swallowed content path",
 }
 
 
